@@ -9,5 +9,15 @@ rmdir "$wt"
 git -C /repo worktree add -q --detach "$wt" HEAD || exit 2
 cleanup() { git -C /repo worktree remove --force "$wt" 2>/dev/null; rm -rf "$wt"; git -C /repo worktree prune; }
 trap cleanup EXIT
-if ! git -C "$wt" apply "$patch"; then echo "patch does not apply: $patch" >&2; exit 2; fi
+# /repo moves on (fix: commits): try the patch as written, then a 3-way merge, then a rebased copy kept next to it
+applied=0
+if git -C "$wt" apply "$patch" 2>/dev/null; then applied=1
+elif git -C "$wt" apply --3way "$patch" 2>/dev/null; then applied=1
+else
+  git -C "$wt" checkout -q -- . 2>/dev/null
+  for alt in "$(dirname "$patch")"/patch-head.diff "$(dirname "$patch")"/patch.rebased*.diff; do
+    [ -f "$alt" ] && git -C "$wt" apply "$alt" 2>/dev/null && { applied=1; break; }
+  done
+fi
+if [ "$applied" != 1 ]; then echo "patch does not apply: $patch" >&2; exit 2; fi
 VERIF_REPO="$wt" "$@"
